@@ -23,6 +23,12 @@ func unhex(t *testing.T, s string) []byte {
 	return b
 }
 
+func TestVFRefSelfTest(t *testing.T) {
+	if err := SelfTest(); err != nil {
+		t.Fatal(err)
+	}
+}
+
 func TestVFRefVectors(t *testing.T) {
 	// RFC 5869 A.1
 	ikm := bytes.Repeat([]byte{0x0b}, 22)
